@@ -163,3 +163,22 @@ package storage
 //@              ic(newPg,j).fileOffset == old(ic(n, mid + 1 + j).fileOffset)
 //@   loop 2 invariant n.rightOffset == old(n.rightOffset) && newPg.rightOffset == old(newPg.rightOffset)
 //@   loop 2 decreases cnt(n) - i
+
+//@ func (n *btreeNode) getRightmostKey() uint32
+//@   props C11
+//@   pure
+//@   requires !n.isLeaf && slotsOK(n) && cnt(n) >= 1
+//@   ensures result == ic(n, cnt(n)-1).key
+
+//@ func (n *btreeNode) updateCell(key uint32, value []byte) error
+//@   props C01 C08 C14
+//@   requires n.isLeaf && slotsOK(n) && sortedKeys(n) && identity(n)
+//@   modifies all(leafCell.valueBytes), all(leafCell.valueSize)
+//@   ensures[toolarge; C08 C14] len(value) > maxValue ==> result == ErrRowTooLarge
+//@   ensures[ok.iff] (result == nil) <==> (len(value) <= maxValue && exists p int :: 0 <= p && p < cnt(n) && key(n,p) == key)
+//@   ensures[err.frame; C14] result != nil ==> forall c *leafCell :: c.valueBytes == old(c.valueBytes) && c.valueSize == old(c.valueSize)
+//@   ensures[ok.cell; C01 C08] result == nil ==> forall i int :: 0 <= i && i < cnt(n) && key(n,i) == key ==>
+//@              lc(n,i).valueBytes == value && lc(n,i).valueSize == len(value)
+//@   ensures[ok.frame; C01] result == nil ==> forall c *leafCell ::
+//@              (forall i int :: 0 <= i && i < cnt(n) && key(n,i) == key ==> lc(n,i) != c) ==>
+//@              c.valueBytes == old(c.valueBytes) && c.valueSize == old(c.valueSize)
